@@ -55,9 +55,10 @@ func blameCorrespondence(r *Run, rng *rand.Rand, thorough bool) {
 	}
 	tweaks := []tw{{"", "", "", 0}, {"KGRound2Message2", "de_commitment", "+1", 1}, {"KGRound2Message2", "de_commitment", "drop-field", 0},
 		{"KGRound2Message2", "proof_t", "+1", 0}, {"KGRound2Message2", "proof_alpha_x", "+1", 0}, {"KGRound2Message1", "share", "+1", 0},
-		{"KGRound1Message", "commitment", "random", 0}, {"KGRound2Message2", "de_commitment", "empty", 2}, {"KGRound2Message2", "", "mirror", 0}}
+		{"KGRound1Message", "commitment", "random", 0}, {"KGRound2Message2", "de_commitment", "empty", 2}, {"KGRound2Message2", "", "mirror", 0},
+		{"KGRound2Message1", "share", "negq", 0}, {"KGRound2Message2", "proof_t", "negq", 0}}
 	if !thorough {
-		tweaks = append(tweaks[:4], tweaks[5], tweaks[8])
+		tweaks = append(tweaks[:4], tweaks[5], tweaks[8], tweaks[9])
 	}
 	for ti, t := range tweaks {
 		n, th := 3, 1
